@@ -4,9 +4,11 @@ import XixiKV.Proofs.CrashHistory
 
 * `Hist`, `hstep`, `hrun`, `unitsOf`: the list of mutation units of a call history
   (`List AOp`, any interleaving of plain and batch calls), computed along the run of the model;
+* `IdsOK`: the batch-id side condition of a history (non-zero, not the id of an abandoned batch);
 * `HInv`: the link between the ghost log of the state reached and that list —
   `unitsOfLog (logOf g) = units`, the records parked under the id of the open batch are exactly
-  its flushed pieces, and the ids of the batches still to be created have nothing parked;
+  its flushed pieces, records are parked only under that id and under abandoned ids, and every
+  batch id in the files has been handed out (`used`);
 * `HInv_astep`: every call keeps the link.
 -/
 namespace XixiKV.C03H
